@@ -40,30 +40,34 @@ PLAN["C03"] = dict(
     assumptions=[
         "ASan only sees a use-after-free while the freed block is still in quarantine; Miri is exact but its workloads are small",
     ],
-    require={"bulk_cases": 100, "references_held_and_reread": 1000, "instances_destroyed_while_round_was_running": 1000, "window_cases_by_step": 1000, "window_cases_by_site": 100},
+    require={"bulk_cases": 100, "references_held_and_reread": 1000, "instances_destroyed_while_round_was_running": 1000, "window_cases_by_step": 1000, "window_cases_by_site": 100, "clear_next_table_cases": 3},
     miri_classes=["ub"],
     jobs=lambda t: [
         J("bulk", "native", ["c03", "--part", "bulk"], shards=8, budget_s=q(t, 20, 120)),
         J("bulk-asan", "asan", ["c03", "--part", "bulk"], shards=8, budget_s=q(t, 30, 180)),
         J("held", "native", ["c03", "--part", "held", "--rounds", q(t, 1200, 400000)], shards=8, budget_s=q(t, 40, 400), parallel=8),
         J("held-asan", "asan", ["c03", "--part", "held", "--rounds", q(t, 60, 100000)], shards=8, budget_s=q(t, 40, 300), parallel=8),
+        # regression for finding F8 (clear into the successor table during a transfer), deterministic
+        J("clear-next-table", "native", ["c03", "--part", "clear-next-table"], shards=1, budget_s=60),
+        J("clear-next-table-asan", "asan", ["c03", "--part", "clear-next-table"], shards=1, budget_s=90),
     ] + miri_jobs_late(["list-mix4", "tree-samebin-mix4", "split-trees"], q(t, 4, 96), q(t, 1, 12)),
 )
 
 PLAN["C01"] = dict(
     level="exploration",
-    engines=["free-run + WGL per-key linearizability checker (native)", "the same recorder and checker on an un-instrumented build of flurry (no hooks, no delays)", "serial token-passing scheduler: seeded, replayable schedules of small programs + the same checker (native)", "per-thread gates: callers frozen after loading the table pointer, released two or three table generations later with a transfer frozen half way (native)"],
+    engines=["free-run + WGL per-key linearizability checker (native)", "the same recorder and checker on an un-instrumented build of flurry (no hooks, no delays)", "serial token-passing scheduler: seeded, replayable schedules of small programs + the same checker (native)", "per-thread gates: callers frozen after loading the table pointer, released two or three table generations later with a transfer frozen half way (native)", "lock convoys: a holder frozen inside a compute closure, 2-5 calls (inserts for the sibling bin, removals, computes, reserve) queued behind the bin lock one by one, then released (native)"],
     assumptions=[
         "tickets from one relaxed fetch_add counter taken before the call and after the return give a real-time order",
         "sub-histories of more than 256 calls or 2^21 search states are counted as unchecked, never as violations",
         "preemption happens where the OS scheduler or an injected delay puts it; interleavings are sampled",
     ],
-    require={"key_histories_checked": 500, "contended_key_histories": 20, "rounds_with_resize": 5, "rounds_with_tree_conversion": 5, "stale_scenarios_grower_frozen_mid_transfer": 100},
+    require={"key_histories_checked": 500, "contended_key_histories": 20, "rounds_with_resize": 5, "rounds_with_tree_conversion": 5, "stale_scenarios_grower_frozen_mid_transfer": 100, "convoy_calls_seen_blocked_on_the_lock": 500},
     jobs=lambda t: [
         J("freerun", "native", ["c01", "--rounds", q(t, 1200, 400000)], shards=q(t, 8, 12), budget_s=q(t, 35, 420), parallel=q(t, 8, 12)),
         J("serial", "native", ["c01", "--part", "serial", "--schedules", q(t, 6000, 4000000)], shards=q(t, 8, 16), budget_s=q(t, 30, 240), parallel=q(t, 8, 16)),
         J("plain", "plain", ["stress", "--oracle", "lin", "--rounds", q(t, 1500, 4000000)], shards=8, budget_s=q(t, 25, 240), parallel=8),
         J("stale", "native", ["c01", "--part", "stale", "--scenarios", q(t, 6000, 4000000)], shards=8, budget_s=q(t, 20, 180), parallel=8),
+        J("convoy", "native", ["c01", "--part", "convoy", "--scenarios", q(t, 6000, 4000000)], shards=8, budget_s=q(t, 15, 180), parallel=8),
     ],
 )
 
